@@ -108,7 +108,7 @@ def seq_case(item):
                             if x.startswith(cname + ">") and after[x]["kind"] == "X":
                                 tol += unit_cost(after[x]["price"], after[x]["mult"], spread, fee, 0)
                 tol += 1e-9 * scale
-                if abs(node["value"] - tgt) > tol:
+                if not (abs(node["value"] - tgt) <= tol):
                     # was the miss produced by the sizing search itself (the known C05 defect)?  Each
                     # allocate request made below this child is re-decided by the brute-force reference
                     sig = None
@@ -123,7 +123,7 @@ def seq_case(item):
                 # not targeted (or target 0): closed, whole subtree
                 for x in after["__order__"]:
                     if (x == cname or x.startswith(cname + ">")) and after[x]["kind"] == "X":
-                        if abs(after[x]["position"]) > 1e-9:
+                        if not (abs(after[x]["position"]) <= 1e-9):
                             viols.append({"rule": "non_target_closed", "expected": {"child": x, "position": 0.0, "weights": tw}, "observed": after[x]["position"], "where": si})
         # a sub-strategy target spreads what it receives over its children by their current weights
         if not integer and fee is None and spread is None:
@@ -136,7 +136,7 @@ def seq_case(item):
                         w0 = before[g]["weight"] if g in before else 0.0
                         g0 = before[g]["value"] if g in before else 0.0
                         exp = g0 + (v1 - v0) * w0
-                        if abs(after[g]["value"] - exp) > 1e-9 * scale:
+                        if not (abs(after[g]["value"] - exp) <= 1e-9 * scale):
                             viols.append({"rule": "substrategy_spreads_by_child_weight", "expected": {"child": g, "value": exp, "received": v1 - v0, "weight_before": w0}, "observed": after[g]["value"], "where": si})
         if viols:
             break
@@ -146,12 +146,33 @@ def seq_case(item):
 def overtime_case(item):
     """RebalanceOverTime(n) with constant prices: linear path to the target, then the target"""
     bt = rt.bt()
-    spec, start, target, nsteps = item
+    spec, start, target, nsteps = item[:4]
+    second = item[4] if len(item) > 4 else None
     t = T.Tree(spec)
     root = t.root
     viols = []
     if start:
         t.apply(["algos", [], {"weights": dict(start)}, "Rebalance"])
+    if second is not None:
+        # new targets arrive while the first stepwise rebalance is still under way (constant prices):
+        # from then on the path is linear from the weights held at that moment to the new targets
+        algo = bt.algos.RebalanceOverTime(nsteps)
+        root.temp = {"weights": dict(target)}
+        algo(root)
+        if not t.apply(["next"]):
+            return ("ok", [], 1, 1)
+        wsig = {k: (float(root.children[k].weight) if k in root.children else 0.0) for k in second}
+        for j in range(1, nsteps + 1):
+            root.temp = {"weights": dict(second)} if j == 1 else {}
+            algo(root)
+            for name in second:
+                w = float(root.children[name].weight) if name in root.children else 0.0
+                exp = wsig[name] + (j / float(nsteps)) * (second[name] - wsig[name])
+                if not (abs(w - exp) <= 1e-9):
+                    viols.append({"rule": "rebalance_over_time_new_targets", "expected": {"child": name, "step": j, "of": nsteps, "weight": exp, "weight_when_the_new_targets_arrived": wsig[name]}, "observed": w})
+            if viols or (j < nsteps and not t.apply(["next"])):
+                break
+        return ("ok", viols[:4], nsteps, 1)
     names = sorted(set(start) | set(target))
     w0 = {k: (float(root.children[k].weight) if k in root.children else 0.0) for k in names}
     algo = bt.algos.RebalanceOverTime(nsteps)
@@ -168,9 +189,9 @@ def overtime_case(item):
             if "prices" in spec:
                 # constant prices: the path is linear
                 exp = w0.get(name, 0.0) + (k / float(nsteps)) * (target[name] - w0.get(name, 0.0))
-                if abs(w - exp) > 1e-9:
+                if not (abs(w - exp) <= 1e-9):
                     viols.append({"rule": "rebalance_over_time_step", "expected": {"child": name, "step": k, "of": nsteps, "weight": exp}, "observed": w})
-            elif k == nsteps and abs(w - target[name]) > 1e-9:
+            elif k == nsteps and not (abs(w - target[name]) <= 1e-9):
                 # moving prices: whatever drifted in between, the n-th step lands on the target
                 viols.append({"rule": "rebalance_over_time_final", "expected": {"child": name, "after_steps": nsteps, "weight": target[name]}, "observed": w})
     # one more call without new weights: nothing left to do
@@ -204,6 +225,54 @@ def backtest_case(item):
     def sub(name, w, kids):
         return bt.Strategy(name, [A.RunDaily(), A.WeighSpecified(**w), A.Rebalance(), Probe()], kids)
 
+    if tree in ("fi_flat", "fi_two"):
+        import pandas as pd
+
+        idx = data.index
+        n = len(idx)
+        data = data.copy()
+        data["d"] = [1.0 if i != 5 else 0.0 for i in range(n)]  # a swap-like mark that sits at exactly zero on one date
+        ad = {"notional": pd.Series([1024.0 + 256.0 * (i % 3) for i in range(n)], index=idx)}
+
+        class FIProbe(bt.core.Algo):
+            def __call__(self, target):
+                if target.root.name == "r" and "weights" in target.temp:
+                    kids = {k: (float(c.weight), float(c.notional_value), isinstance(c, bt.core.StrategyBase)) for k, c in target.children.items()}
+                    open_below = {R.node_path(x): float(x.position) for k, c in target.children.items() if k not in target.temp["weights"] for x in ([c] if isinstance(c, bt.core.SecurityBase) else c.securities) if float(x.position) != 0.0}
+                    seen.append((R.node_path(target), str(target.now), dict(target.temp["weights"]), kids, float(target.notional_value), float(target.temp.get("notional_value", float("nan"))), open_below))
+                return True
+
+        if tree == "fi_flat":
+            kids = [bt.FixedIncomeSecurity("a"), bt.FixedIncomeSecurity("b", multiplier=10), bt.CouponPayingSecurity("d", multiplier=4)]
+            ad["coupons"] = pd.DataFrame({"d": [0.0] * n}, index=idx)
+            root = bt.FixedIncomeStrategy("r", [A.RunDaily(), A.SetNotional("notional"), A.WeighSpecified(**sub_w), A.Rebalance(), FIProbe()], children=kids)
+        else:
+            sub_s = bt.FixedIncomeStrategy("s", [A.RunOnce(), A.SetNotional("notional"), A.WeighSpecified(a=0.5, d=-0.5), A.Rebalance()], children=[bt.FixedIncomeSecurity("a"), bt.FixedIncomeSecurity("d")])
+            pw = pd.DataFrame({"s": [0.5 if i < 5 else float("nan") for i in range(n)], "b": [0.5 if i < 5 else 1.0 for i in range(n)]}, index=idx)
+            ad["pw"] = pw
+            root = bt.FixedIncomeStrategy("r", [A.RunDaily(), A.SetNotional("notional"), A.WeighTarget("pw"), A.Rebalance(), FIProbe()], children=[sub_s, bt.FixedIncomeSecurity("b")])
+        b = bt.Backtest(root, data, initial_capital=0.0, integer_positions=False, progress_bar=False, additional_data=ad)
+        try:
+            b.run()
+        except Exception as e:
+            if rt.classify(e) == "guard":
+                return ("refused", [], 0)
+            return ("crash", [{"rule": "crash", "observed": rt.describe(e)}], 0)
+        viols = []
+        for path, now, tw, kids, notl, base, open_below in seen:
+            for k, w in tw.items():
+                got = kids.get(k)
+                if got is not None and got[2]:
+                    continue  # (a sub-strategy without child weights receives notional by its own schedule: C17)
+                wrong_weight = tree == "fi_flat" and got is not None and not (abs(got[0] - w / sum(abs(x) for x in tw.values())) <= 1e-9)
+                if got is None or wrong_weight or not (abs(got[1] - w * base) <= 1e-9 * max(1.0, abs(base))):
+                    viols.append({"rule": "target_notional_in_backtest", "expected": {"node": path, "date": now, "child": k, "notional": w * base, "notional_weight": w / sum(abs(x) for x in tw.values())}, "observed": got})
+                    break
+            if open_below and not viols:
+                viols.append({"rule": "non_target_closed_in_backtest", "expected": {"node": path, "date": now, "open positions below dropped children": {}}, "observed": open_below})
+            if viols:
+                break
+        return ("ok", viols, len(seen))
     if tree == "two":
         s1 = sub("s", sub_w, [bt.Security("a"), bt.Security("b")])
         root = bt.Strategy("r", [A.RunWeekly(), A.WeighSpecified(**root_w), A.Rebalance(), Probe()], [s1, bt.Security("d", multiplier=5)])
@@ -229,7 +298,7 @@ def backtest_case(item):
                 tol = 5.0 * float(data.max().max()) * 3 / max(1.0, abs(value))
             else:
                 tol = 1e-9
-            if got is None or abs(got - w) > tol:
+            if got is None or not (abs(got - w) <= tol):
                 viols.append({"rule": "target_weight_in_backtest", "expected": {"node": path, "date": now, "child": k, "weight": w, "integer_positions": integer}, "observed": got})
                 break
         if viols:
@@ -243,6 +312,8 @@ def replay(case):
         return backtest_case((w[0], w[1], w[2], w[3], w[4]))[1]
     if case["kind"] == "seq":
         return seq_case((case["spec"], [tuple(s) for s in case["steps"]]))[1]
+    if case.get("second"):
+        return overtime_case((case["spec"], case["start"], case["target"], case["n"], case["second"]))[1]
     return overtime_case((case["spec"], case["start"], case["target"], case["n"]))[1]
 
 
@@ -340,13 +411,17 @@ def run(ctx):
             for nsteps in (1, 2, 3, 4):
                 ot.append((flat, start, target, nsteps))
                 ot.append((moving, start, target, nsteps))
+                if nsteps in (2, 3):
+                    ot.append((flat, start, target, nsteps, {"a": 0.25, "b": 0.5}))
     for kind in kinds:
         for item, (status, viols, n, tr) in ctx.run(kind, MOD, "overtime_case", ot, chunksize=4):
             ctx.add(states=1, transitions=n, traces_validated_against_impl=1, evaluations=n)
             ctx.nontrivial_count += 1
             for v in viols:
-                ctx.violation(dict(v, build=kind, module=MOD, case={"kind": "overtime", "spec": item[0], "start": item[1], "target": item[2], "n": item[3]}))
+                ctx.violation(dict(v, build=kind, module=MOD, case={"kind": "overtime", "spec": item[0], "start": item[1], "target": item[2], "n": item[3], "second": item[4] if len(item) > 4 else None}))
     bts = [(tree, integer, dname, sw, rw) for tree in ("flat", "two", "three") for integer in (False, True) for dname in ("d12", "d25") for sw in ({"a": 0.5, "b": 0.25}, {"a": 0.75, "b": -0.25}) for rw in ({"s": 0.5, "d": 0.25}, {"s": 0.25, "d": -0.25})]
+    bts += [("fi_flat", False, dname, sw, None) for dname in ("d12", "d25") for sw in ({"a": 0.5, "b": 0.25}, {"a": 0.75, "b": -0.25}, {"a": 0.25, "b": 0.25, "d": 0.5})]
+    bts += [("fi_two", False, dname, None, None) for dname in ("d12", "d25")]
     for kind in kinds:
         for item, (status, viols, n) in ctx.run(kind, MOD, "backtest_case", bts, chunksize=2):
             ctx.add(states=1, transitions=n, traces_validated_against_impl=1, evaluations=n)
